@@ -88,10 +88,13 @@ def groups_to_pids():
 
 
 def main():
-    args = [a for a in sys.argv[1:] if not a.startswith("--")]
+    argv = sys.argv[1:]
     max_compile = 3
-    if "--max-compile" in sys.argv:
-        max_compile = int(sys.argv[sys.argv.index("--max-compile") + 1])
+    if "--max-compile" in argv:
+        i = argv.index("--max-compile")
+        max_compile = int(argv[i + 1])
+        del argv[i:i + 2]
+    args = [a for a in argv if not a.startswith("--")]
     shutil.rmtree(SCRATCH_REPO, ignore_errors=True)
     shutil.copytree("/repo", SCRATCH_REPO, ignore=shutil.ignore_patterns(".git"))
     shutil.rmtree(SCRATCH_COQ, ignore_errors=True)
